@@ -195,10 +195,13 @@ theorem TimInv.of_outer {s s' : Sess} (h : TimInv s) (o : Outer s s') : TimInv s
 theorem outer_of_st {s s' : Sess} (h : ¬ inSession s'.st) (h2 : s'.holdTime = s.holdTime) (h3 : s'.now = s.now)
     (h4 : s'.tm.keepalive = s.tm.keepalive) (h5 : s'.tm.hold = s.tm.hold) : Outer s s' := ⟨Or.inr h, h2, h3, h4, h5⟩
 
+theorem outer_abortPending (s : Sess) : Outer s s.abortPending :=
+  ⟨Or.inl (by simp), by simp, by simp, by simp, by simp⟩
+
 theorem outer_connectTcp (s : Sess) : Outer s s.connectTcp := by
   unfold connectTcp; split
-  · exact ⟨Or.inl rfl, rfl, rfl, rfl, rfl⟩
-  · exact Outer.refl s
+  · refine (outer_abortPending s).trans ⟨Or.inl rfl, rfl, rfl, rfl, rfl⟩
+  · exact outer_abortPending s
 
 theorem outer_autoStart (s : Sess) (b : Bool) : Outer s (s.autoStart b) := by
   unfold autoStart
@@ -285,7 +288,9 @@ theorem timInv_step (w : World) (e : Ev) (h : TimInv w.sess) : TimInv (step U w 
       rw [this]; simp
   | connFail c =>
     simp only [step, connFail]
-    exact timInv_connectionFailed (h0.of_core rfl rfl rfl rfl)
+    split
+    · exact timInv_connectionFailed (h0.of_core rfl rfl rfl rfl)
+    · exact h0.of_core rfl rfl rfl rfl
   | chunk c d =>
     simp only [step, dataReceived]
     exact timInv_drain U c _ _ _ h0
